@@ -119,7 +119,7 @@ func (m *cycleMode) graphOf(g int64) graph {
 		}
 		return gr
 	}
-	r := hx.NewRand(m.o.seed*7919 + uint64(g))
+	r := hx.NewRand(m.o.seed*7919 + uint64(g)).Split()
 	n := 2 + r.Intn(8)
 	gr := graph{Shape: "random"}
 	kinds := []string{"list", "list", "dict", "tuple", "tuple", "struct", "func", "func", "builtin", "int", "none", "set", "list", "dict", "tuple", "int"}
